@@ -196,6 +196,7 @@ sLUMemInit(fact_t fact, void *work, int_t lwork, int m, int n, int_t annz,
     NCformat *Ustore;
     int      *xsup, *supno;
     int_t    *lsub, *xlsub;
+    int_t    used_mark = 0, top1_mark = 0;
     float   *lusup;
     int_t    *xlusup;
     float   *ucol;
@@ -242,8 +243,14 @@ sLUMemInit(fact_t fact, void *work, int_t lwork, int m, int n, int_t annz,
 	    xlsub  = suser_malloc((n+1) * iword, HEAD, Glu);
 	    xlusup = suser_malloc((n+1) * iword, HEAD, Glu);
 	    xusub  = suser_malloc((n+1) * iword, HEAD, Glu);
+	    if ( !xsup || !supno || !xlsub || !xlusup || !xusub )
+		return (smemory_usage(nzlmax, nzumax, nzlumax, n) + n);
 	}
 
+	if ( Glu->MemModel == USER ) { /* state of the workspace before the four arrays */
+	    used_mark = Glu->stack.used;
+	    top1_mark = Glu->stack.top1;
+	}
 	lusup = (float *) sexpand( &nzlumax, LUSUP, 0, 0, Glu );
 	ucol  = (float *) sexpand( &nzumax, UCOL, 0, 0, Glu );
 	lsub  = (int_t *) sexpand( &nzlmax, LSUB, 0, 0, Glu );
@@ -256,8 +263,9 @@ sLUMemInit(fact_t fact, void *work, int_t lwork, int m, int n, int_t annz,
 		SUPERLU_FREE(lsub); 
 		SUPERLU_FREE(usub);
 	    } else {
-		suser_free((nzlumax+nzumax)*dword+(nzlmax+nzumax)*iword,
-                            HEAD, Glu);
+		/* give back whatever part of the four arrays was granted */
+		Glu->stack.used = used_mark;
+		Glu->stack.top1 = top1_mark;
 	    }
 	    nzlumax /= 2;
 	    nzumax /= 2;
